@@ -647,6 +647,9 @@ void PostOp(const void *loc, int op, std::memory_order mo, uint64_t before, uint
       t.ro_gw = g_gw;
     }
   }
+  // thread-exit destructors: also a scheduling point AFTER every operation, so that the steps of the
+  // exit path (ID release, heartbeat expiry, node free) can be separated whatever their order
+  if (t.body_done) YieldToController(me);
 }
 
 void SpinHint(int) noexcept
